@@ -102,7 +102,7 @@ pub fn run(ctx: &mut Ctx) {
     for (n, ok) in r2::selftest() {
         ctx.selftest(&n, ok);
     }
-    ctx.require(&["outcome_ok", "outcome_err", "boundary_key_accepted", "boundary_key_rejected"]);
+    ctx.require(&["outcome_ok", "outcome_err", "boundary_key_accepted", "boundary_key_rejected", "carry_chain_key"]);
     let entries = [
         "sm2.verify", "sm2.decrypt:c1c2c3_uncompressed", "sm2.decrypt:c1c2c3_compressed", "sm2.decrypt:c1c3c2_uncompressed", "sm2.decrypt:c1c3c2_compressed", "sm2.decrypt_asn1", "sm2.Sm2PublicKey::new", "sm2.Sm2PublicKey::from_hex_string", "sm2.Sm2PrivateKey::new", "sm2.Sm2PrivateKey::from_hex_string", "sm2.from_pkcs8_der", "sm2.from_pkcs8_pem", "sm2.from_public_key_der", "sm2.from_public_key_pem", "sm2.FromStr", "sm2.kdf", "sm2.compute_za",
         "sm4.Sm4Cipher::new", "sm4.Sm4Cipher::encrypt", "sm4.Sm4Cipher::decrypt", "sm4.Sm4CipherMode::new", "sm4.mode.decrypt:cbc", "sm4.mode.decrypt:cfb", "sm4.mode.decrypt:ofb", "sm4.mode.decrypt:ctr", "sm4.mode.encrypt:cbc", "sm4.mode.encrypt:ctr",
@@ -326,7 +326,20 @@ pub fn run(ctx: &mut Ctx) {
     }
     // boundary private keys: whatever the constructor accepts must sign and encrypt in bounded time
     let two256m1: BigUint = (BigUint::one() << 256) - 1u32;
-    for (name, v) in [("0", BigUint::zero()), ("1", BigUint::one()), ("2", BigUint::from(2u32)), ("n-2", &c.n - 2u32), ("n-1", &c.n - 1u32), ("n", c.n.clone()), ("n+1", &c.n + 1u32), ("p-1", &c.p - 1u32), ("p", c.p.clone()), ("2^256-1", two256m1)] {
+    let mut bkeys: Vec<(String, BigUint)> = [("0", BigUint::zero()), ("1", BigUint::one()), ("2", BigUint::from(2u32)), ("n-2", &c.n - 2u32), ("n-1", &c.n - 1u32), ("n", c.n.clone()), ("n+1", &c.n + 1u32), ("p-1", &c.p - 1u32), ("p", c.p.clone()), ("2^256-1", two256m1)].into_iter().map(|(a, b)| (a.to_string(), b)).collect();
+    // carry-chain keys: 2^k - 1 (runs of one bits / all-ones limbs), 2^k, n - 2^k
+    for k in 2..=255usize {
+        bkeys.push((format!("2^{}-1", k), (BigUint::one() << k) - 1u32));
+        if k % 8 == 0 || k % 64 == 63 || k % 64 == 1 {
+            bkeys.push((format!("2^{}", k), BigUint::one() << k));
+            bkeys.push((format!("n-2^{}", k), &c.n - (BigUint::one() << k)));
+        }
+    }
+    for (name, v) in bkeys {
+        let name = name.as_str();
+        if name.contains('^') && name != "2^256-1" {
+            ctx.class("carry_chain_key");
+        }
         idx += 1;
         if !ctx.mine(idx) {
             continue;
